@@ -372,7 +372,9 @@ def run(ctx):
         "(partial, as DESIGN.md §5 C03 says); OpenType and AAT fonts are separate streams",
     ]
     ctx.regen()
-    ctx.prove(MODULE)
+    if not ctx.prove(MODULE):
+        import _pairflag as PFn
+        PFn.name_failed_theorems(ctx)
     shim = vlib.build_harness()
     b = dict(F.constants(shim)[1])
     pc, pt = b["PRODUCE_UNSAFE_TO_CONCAT"], b["PRODUCE_SAFE_TO_INSERT_TATWEEL"]
